@@ -71,6 +71,8 @@ func CommitOps(g *Gen, ac *chain.Actor, name string, ctx sdk.Context) sdk.Msg {
 			return nil
 		}
 		return &commitmenttypes.MsgVestNow{Creator: me, Amount: over(part(have)), Denom: "ueden"}
+	case "vestLiquid":
+		return &commitmenttypes.MsgVestLiquid{Creator: me, Amount: g.Amt(1e3, 1e9), Denom: "uatom"}
 	case "stake":
 		switch r.Intn(3) {
 		case 0:
